@@ -1,9 +1,11 @@
 #!/bin/bash
-# usage: import_seeded.sh Cxx  -> confirms and imports /tmp/wtout/Cxx/v* into /verif/seeded/Cxx-vN
+# usage: import_seeded.sh Cxx [srcroot=/tmp/wtout] [tag=v] -> confirms and imports <srcroot>/Cxx/v* into /verif/seeded/Cxx-<tag>N
 P=$1
-for d in /tmp/wtout/$P/v*; do
+SRC=${2:-/tmp/wtout}
+TAG=${3:-v}
+for d in $SRC/$P/v*; do
   [ -f $d/patch.diff ] || continue
-  v=$(basename $d); ID=$P-$v
+  v=$(basename $d); ID=$P-${v/v/$TAG}
   LINE=$(/verif/tools/confirm_seeded.sh $d $ID 2>&1 | grep "^$ID")
   echo "$LINE"
   if echo "$LINE" | grep -q "532 passed.*demo_with_patch_exit=[1-9][0-9]* demo_without_exit=0"; then
